@@ -563,3 +563,4 @@ fn check_placeholder(c: &(IndexM, i32, u8), rec: &mut Rec) -> CaseResult {
 }
 
 include!("c15_cff_whole.rs");
+include!("c15_cff_fuzz.rs");
